@@ -89,19 +89,22 @@ class Optimizer(Identifiable, Runnable):
             n_iter = state["n_iter"]
             print(f"{n_iter:>4} {loss:.5f} evaluations: {func_evals}")
 
+            # the counter is advanced first: a checkpoint stores the iteration
+            # a restarted run has to begin with, not the one just completed
+            completed = self._epoch
+            self._epoch += 1
+
             if (
                 self.checkpoint is not None
-                and self._epoch % self.checkpoint_frequency == 0
+                and completed % self.checkpoint_frequency == 0
             ):
                 if self.checkpoint_all:
                     checkpoint_file = self.checkpoint.replace(
-                        ".json", f"-{self._epoch}.json"
+                        ".json", f"-{completed}.json"
                     )
                     self.save_full_state(checkpoint_file, overwrite=True)
                 else:
                     self.save_full_state(self.checkpoint)
-
-            self._epoch += 1
 
     def _run(self) -> None:
         for logger in self.loggers:
@@ -169,19 +172,22 @@ class Optimizer(Identifiable, Runnable):
                 for p in self.parameters:
                     p.fire_parameter_changed()
 
+            # the counter is advanced first: a checkpoint stores the iteration
+            # a restarted run has to begin with, not the one just completed
+            completed = self._epoch
+            self._epoch += 1
+
             if (
                 self.checkpoint is not None
-                and self._epoch % self.checkpoint_frequency == 0
+                and completed % self.checkpoint_frequency == 0
             ):
                 if self.checkpoint_all:
                     checkpoint_file = self.checkpoint.replace(
-                        ".json", f"-{self._epoch}.json"
+                        ".json", f"-{completed}.json"
                     )
                     self.save_full_state(checkpoint_file, overwrite=True)
                 else:
                     self.save_full_state(self.checkpoint)
-
-            self._epoch += 1
 
         for logger in self.loggers:
             logger.close()
